@@ -8,7 +8,7 @@ FUN = ['FIX8::MemoryPersister::put(seq,str)', 'put(control)', 'get(seq)', 'get(c
 US = ['main.0:8', 'main.1:8', 'main.2:8', 'x_vf_range_cb.0:8', '_ZNK4FIX815MemoryPersister27find_nearest_highest_seqnumEjj.0:9', 'vf_copy.0:10']
 
 # ---- file persister family (shared with C27 / C29)
-FROOTS = ['vf_fp_ctor', 'vf_fp_init', 'vf_fp_put', 'vf_fp_putc', 'vf_fp_get', 'vf_fp_getc', 'vf_fp_last', 'vf_fp_nearest', 'vf_fp_range']
+FROOTS = ['vf_fp_ctor', 'vf_fp_init', 'vf_fp_put', 'vf_fp_putc', 'vf_fp_get', 'vf_fp_getc', 'vf_fp_last', 'vf_fp_nearest', 'vf_fp_range', 'vf_fp_fod', 'vf_fp_iod']
 FFUN = ['FIX8::FilePersister::initialise', 'FilePersister::put(seq,str)', 'put(control)', 'get(seq)', 'get(control)', 'get(from,to,session,callback)',
         'find_nearest_highest_seqnum', 'get_last_seqnum', 'FIX8::CheckAddTrailingSlash', 'FIX8::exist',
         'std::map<unsigned,Prec> header code (_Rb_tree::find/_M_get_insert_unique_pos/_M_insert_/lower_bound) as instantiated in runtime/filepersist.cpp']
@@ -61,6 +61,17 @@ def run(ctx):
                         bounds='initialise on an empty directory, then every sequence of %d operations where position i draws from op set %s {bit 0 put,1 control-put,2 get,3 control-get,4 last,5 nearest,6 range-get}, '
                                'seqnums 0..6, payloads 1-2 symbolic bytes; FIX8_MAX_MSG_LENGTH scaled to %d in filepersist.cpp; files <= %d bytes' % (k, [hex(s) for s in sets], MSGLEN, 16 * (k + 2)),
                         desc='real FilePersister over the POSIX file model against a reference map + control record'))
+    # inductive step: a representative state (<= 2 stored records + control record) with BOTH descriptors at any position an earlier
+    # history could have left them at, ONE operation, then the read-back probe (again from arbitrary positions)
+    for sets in [(0x03, 0x03, 0x3f)] + ([] if ctx.tier == 'quick' else [(0x03, 0x03, 0x03, 0x3f)]):
+        k = len(sets)
+        ctx.add(Harness('C26_file_ind_%s' % opsname(sets), VERIF + '/harness/C26_file.c',
+                        defines=defs + ['K=%d' % k, 'VF_MAXCOPY=8', 'VF_FS_FSIZE=%d' % (16 * (k + 2)), 'HAVOC_OFFSETS', 'FINAL_PROBE'] + ['OPS%d=0x%x' % (i, s) for i, s in enumerate(sets)], unwind=k + 2,
+                        unwindset=FUS + ['main.3:%d' % (k + 2)], timeout=900 if ctx.tier == 'quick' else 3000, mem_gb=16, functions=FFUN, stubs=FSTUBS, nochecks=(ctx.tier == 'quick'),
+                        bounds='state built by %d store operations (message/control, seq 0..6, 1-2 byte payloads); before every operation and before the final read-back probe the data descriptor sits after ANY stored record '
+                               'and the index descriptor after the control slot or at the end (every position a history of gets/puts can leave); one operation from {put, control put, get, control get, last, nearest}; '
+                               'then get(s) for symbolic s, control get and the data-file length must match the reference' % (k - 1),
+                        desc='inductive step of the real FilePersister from an arbitrary reachable file-position state'))
     ctx.assumptions += ['operator new never fails', 'rb-tree rebalancing replaced by an unbalanced BST with the same in-order sequence',
                         'range retrieval uses a non-virtual recording callback on an opaque Session (only Session::get_next_send_seq is read)',
                         'file persister: POSIX calls follow models/posixfs.c (no I/O errors, no short reads/writes); file names are built by models/ostream_fmt.c; '
@@ -72,12 +83,14 @@ def run(ctx):
 
 def replay(ctx, cx, h=None):
     c = cx.get('cx', cx)
-    exe = ctx.native('c26replay', ['replay/c26_replay.cpp', REPO + '/runtime/persist.cpp', REPO + '/runtime/filepersist.cpp'], flags=('-O1', '-fsanitize=address,undefined', '-fno-sanitize=vptr'),
+    exe = ctx.native('c26replay', ['replay/c26_replay.cpp', REPO + '/runtime/persist.cpp', REPO + '/runtime/filepersist.cpp'], flags=('-O1', '-fsanitize=address,undefined', '-fno-sanitize=vptr', '-fno-access-control'),
                      libs=['-L' + REPO + '/runtime/.libs', '-lfix8', '-Wl,-rpath,' + REPO + '/runtime/.libs'])
     ops = c.get('cx_op', []); n = len(ops)
     def g(k, i): v = c.get(k, []); return int(v[i]) if i < len(v) else 0
     args = []
-    for i in range(n): args += [str(g('cx_op', i)), str(g('cx_a', i)), str(g('cx_b', i)), str(g('cx_d0', i)), str(g('cx_d1', i)), str(g('cx_len', i))]
-    which = 'file' if (h is not None and '_file_' in h.name) or c.get('persister') == 'file' else 'mem'
+    hv = (h is not None and '_file_ind' in h.name) or c.get('persister') == 'fileh'
+    for i in range(n): args += [str(g('cx_op', i)), str(g('cx_a', i)), str(g('cx_b', i)), str(g('cx_d0', i)), str(g('cx_d1', i)), str(g('cx_len', i))] + ([str(g('cx_hd', i)), str(g('cx_hi', i))] if hv else [])
+    if hv: args += [str(g('cx_hd', n)), str(g('cx_hi', n)), str(int(c.get('cx_probe', 1)) or 1)]
+    which = 'fileh' if hv else 'file' if (h is not None and '_file_' in h.name) or c.get('persister') == 'file' else 'mem'
     r = sh([exe, which] + args, env=dict(os.environ, ASAN_OPTIONS='detect_leaks=0'))
     return r.returncode != 0, which + ' persister: ' + r.stdout.strip()[-400:].replace('\n', ' | ')
